@@ -1,5 +1,6 @@
 import BR.Lemmas.AC
 import BR.Lemmas.Inline
+import BR.Bridge.Inline
 import BR.Gen.Tables
 /-!
 # C11 — the action cache stores and serves only valid ActionResults, unchanged
